@@ -98,6 +98,7 @@ class Sizes:
         w = self.__dict__.get('_walker')
         if w is None:
             w = self._walker = Walker(self.facts, inline='all')
+            w.returning_paths_only = True          # a size is what the item contributes when nothing fails
         return w
 
     def size_by_walk(self, cls, m, field, st):
@@ -298,7 +299,7 @@ class Sizes:
                     attr = unparse(t.left)[5:]
                     val = field(attr)
                     try:
-                        rhs = fold(t.comparators[0])
+                        rhs = fold(t.comparators[0], self.facts.consts)      # a literal, or a module-level constant collection
                     except NotConstant:
                         raise AnalysisError('size() of {}: test {} not foldable'.format(cls, unparse(t)))
                     if is_const(val):
@@ -377,6 +378,11 @@ class Sizes:
         f = st.facts.get(v) if st is not None else None
         if f and f['eq'] is not None and isinstance(f['eq'][1], int):
             return LinS(const=f['eq'][1])
+        if st is not None and v[0] in ('mcall', 'call', 'attr', 'res', 'sub', 'lv'):
+            # `if padding:` / `if not padding:` - a value used as a number that the path found falsy is 0
+            for t, pol, _ in st.conds:
+                if (t == v and not pol) or (t == ('un', 'not', v) and pol):
+                    return LinS(const=0)
         k = v[0]
         if k == 'bin' and v[1] in ('+', '-'):
             a, b = self.lin(v[2], st), self.lin(v[3], st)
@@ -415,6 +421,13 @@ class Sizes:
                     n = struct_size(fmt) if isinstance(fmt, str) else None
                     if n is not None:
                         return LinS(const=n)
+            if x[0] == 'call' and x[1] in ('bytes', 'bytearray') and len(x[2]) == 1 and not x[3] and not is_const(x[2][0]):
+                # bytes(n) with n a number is n zero bytes; bytes(b) with b bytes-like is a copy of b
+                arg = self.resolve(x[2][0], st)
+                if is_number(arg):
+                    return self.lin(arg, st)
+                if is_number(arg) is None:
+                    return LinS({v: 1})
             if x[0] == 'call' and x[1] == 'bytes' and len(x[2]) == 1 and not (is_const(x[2][0]) and isinstance(x[2][0][1], int)):
                 return self.lin(('call', 'len', (x[2][0],), ()), st)
             if x[0] == 'call' and x[1] in ('bytearray', 'bytes', 'list') and not x[2]:
@@ -570,6 +583,45 @@ class Sizes:
         return True
 
 
+def is_number(v):
+    """True: the symbolic value is an integer (built by arithmetic from integer constants, lengths, sizes); False: it is a
+    bytes / str / sequence value; None: cannot tell."""
+    if is_const(v):
+        if isinstance(v[1], bool):
+            return None
+        return True if isinstance(v[1], int) else (False if isinstance(v[1], (bytes, str, tuple, list)) else None)
+    k = v[0]
+    if k == 'bin' and v[1] == '%':
+        a = is_number(v[2])
+        return None if a is None else a          # text % args is formatting
+    if k == 'bin' and v[1] in ('-', '//', '<<', '>>', '**'):
+        return True          # not defined on bytes / str
+    if k == 'bin' and v[1] in ('&', '|', '^'):
+        return None          # also defined on sets
+    if k == 'bin' and v[1] == '+':
+        a, b = is_number(v[2]), is_number(v[3])
+        return True if (a is True or b is True) else (False if (a is False or b is False) else None)
+    if k == 'bin' and v[1] == '*':
+        a, b = is_number(v[2]), is_number(v[3])
+        return False if (a is False or b is False) else (True if (a and b) else None)
+    if k == 'un' and v[1] in ('-', '+', '~'):
+        return True
+    if k == 'call' and v[1] in ('len', 'int', 'abs', 'struct.calcsize', 'ord', 'sum', 'round'):
+        return True
+    if k == 'call' and v[1] in ('bytes', 'bytearray', 'str', 'list', 'tuple', 'struct.pack'):
+        return False
+    if k == 'mcall' and v[2] in ('size', 'bit_length', 'count', 'index', 'find'):
+        return True
+    if k == 'mcall' and v[2] in ('encode', 'decode', 'join', 'to_bytes', 'pack', 'strip', 'lower', 'upper', 'format'):
+        return False
+    if k == 'ifexp':
+        a, b = is_number(v[2]), is_number(v[3])
+        return a if a == b else None
+    if k in ('list', 'tuple', 'dict', 'comp', 'accum'):
+        return False
+    return None
+
+
 def map_value(v, f):
     """Bottom-up rewriting of a symbolic value (nested tuples)."""
     if not isinstance(v, tuple):
@@ -625,6 +677,7 @@ class PathAccount:
         self.advances = []        # (LinS, node, index in events)
         self.label_updates = []   # dict(delta, op, rhs, iter, node, index, shape_ok)
         self.label_sets = []      # (key, value, node)
+        self.label_other = []     # nodes that write the label table in a way the accounting does not follow
         self.evals = []           # (expr value, args, node)
         self.raises = []
         self.other_list_ops = []  # (list, method, node)
@@ -632,43 +685,96 @@ class PathAccount:
         self.label_writes = []    # nodes of writes into the label table that are not `labels.update(..)` (labels[k] = v, labels[k] -= d, ...)
 
 
+def _subst(v, old, new):
+    if v == old:
+        return new
+    if isinstance(v, tuple):
+        return tuple(_subst(x, old, new) if isinstance(x, tuple) else x for x in v)
+    return v
+
+
+def _comp_parts(arg):
+    """(key, value, names, iterable, filters) of a comprehension that spells out a mapping: a dict comprehension, a list /
+    generator comprehension of (key, value) pairs, or dict(<one of those>)."""
+    if arg[0] == 'dictcomp':
+        return arg[1], arg[2], arg[3], arg[4], arg[5]
+    if arg[0] == 'comp' and arg[1] in ('ListComp', 'GeneratorExp') and arg[2][0] == 'tuple' and len(arg[2][1]) == 2:
+        return arg[2][1][0], arg[2][1][1], arg[3], arg[4], arg[5]
+    if arg[0] == 'call' and arg[1] == 'dict' and len(arg[2]) == 1 and not arg[3]:
+        return _comp_parts(arg[2][0])
+    return None
+
+
 def parse_label_update(arg):
-    """labels.update({k: v - D for k, v in labels.items() if v > P}) -> dict or None"""
-    if arg[0] == 'comp' and len(arg) >= 6 and arg[2][0] == 'tuple' and len(arg[2][1]) == 2:
-        # labels.update((k, v - d) for k, v in labels.items() if ..): the same update given as pairs
-        arg = ('dictcomp', arg[2][1][0], arg[2][1][1], arg[3], arg[4], arg[5])
-    if arg[0] != 'dictcomp':
+    """labels.update({k: v - D for k, v in labels.items() if v > P}) -> dict or None.  Equivalent spellings are brought to that
+    form: a comprehension of (k, v - D) pairs, iteration over the keys with labels[k] as the value, list(...) around the
+    iterable, the filter folded into the value (`v - D if v > P else v`), `not v <= P`, `v >= P + 1` (offsets are integers)."""
+    parts = _comp_parts(arg)
+    if parts is None:
         return None
-    key, val, names, it, ifs = arg[1], arg[2], arg[3], arg[4], arg[5]
+    key, val, names, it, ifs = parts
+    while it[0] == 'call' and it[1] in ('list', 'tuple', 'iter') and len(it[2]) == 1 and not it[3]:
+        it = it[2][0]
     nm = names.split(',')
-    if len(nm) != 2:
+    if len(nm) == 1 and nm[0]:
+        # for k in labels / labels.keys(): the value is labels[k]
+        base = it[1] if (it[0] == 'mcall' and it[2] == 'keys' and not it[3]) else it
+        if base[0] != 'name':
+            return None
+        kvar, vvar = ('var', nm[0]), ('var', nm[0] + '.value')
+        cell = ('sub', base, kvar)
+        val = _subst(val, cell, vvar)
+        ifs = tuple(_subst(c, cell, vvar) for c in ifs)
+        if any(contains_value(x, base) for x in (val,) + tuple(ifs)):
+            return None
+        it = ('mcall', base, 'items', (), ())
+    elif len(nm) == 2:
+        kvar, vvar = ('var', nm[0]), ('var', nm[1])
+    else:
         return None
-    kvar, vvar = ('var', nm[0]), ('var', nm[1])
-    if val[0] == 'ifexp' and not ifs and val[1][0] == 'cmp':
-        # {k: (v - d if v > p else v) ...}: rewriting the other labels with their own value is the filter
-        flip = {'<': '>=', '>': '<=', '<=': '>', '>=': '<', '==': '!=', '!=': '=='}
+    out = {'key_ok': key == kvar, 'iter': it}
+    if val[0] == 'ifexp' and not ifs:
+        # {k: (v - D if v > P else v) ...}: the unchanged arm is the filter
         if val[3] == vvar:
-            val, ifs = val[2], (val[1],)
-        elif val[2] == vvar and val[1][1] in flip:
-            val, ifs = val[3], (('cmp', flip[val[1][1]], val[1][2], val[1][3]),)
-    out = {'key_ok': key == kvar, 'iter': it, 'ifs': ifs}
+            ifs, val = (val[1],), val[2]
+        elif val[2] == vvar:
+            ifs, val = (('un', 'not', val[1]),), val[3]
+    out['ifs'] = ifs
     if val[0] == 'bin' and val[1] == '-' and val[2] == vvar:
         out['delta'] = val[3]
         out['sign'] = 1
     elif val[0] == 'bin' and val[1] == '+' and val[2] == vvar:
         out['delta'] = val[3]
         out['sign'] = -1
+    elif val[0] == 'bin' and val[1] == '+' and val[3] == vvar:
+        out['delta'] = val[2]
+        out['sign'] = -1
     else:
         return None
-    if len(ifs) == 1 and ifs[0][0] == 'cmp':
-        op, a, b = ifs[0][1], ifs[0][2], ifs[0][3]
-        if a == vvar:
+    if contains_value(out['delta'], vvar) or contains_value(out['delta'], kvar):
+        return None
+    if len(ifs) == 1:
+        test, neg = ifs[0], False
+        while test[0] == 'un' and test[1] == 'not':
+            test, neg = test[2], not neg
+        if test[0] != 'cmp':
+            return None
+        op, a, b = test[1], test[2], test[3]
+        if neg:
+            op = {'<': '>=', '>': '<=', '<=': '>', '>=': '<', '==': '!=', '!=': '=='}.get(op)
+            if op is None:
+                return None
+        if a == vvar and not contains_value(b, vvar):
             out['op'], out['rhs'] = op, b
-        elif b == vvar:
+        elif b == vvar and not contains_value(a, vvar):
             flip = {'<': '>', '>': '<', '<=': '>=', '>=': '<='}
             out['op'], out['rhs'] = flip.get(op, op), a
         else:
             return None
+        rhs = out['rhs']
+        if out['op'] == '>=' and rhs[0] == 'bin' and rhs[1] == '+' and (rhs[3] == C(1) or rhs[2] == C(1)):
+            # v >= P + 1  is  v > P  over the integers
+            out['op'], out['rhs'] = '>', (rhs[2] if rhs[3] == C(1) else rhs[3])
     elif not ifs:
         out['op'], out['rhs'] = None, None
     else:
@@ -690,11 +796,24 @@ def account(path, result_list, labels_name='labels'):
                     acc.appended.append((recv, x, node, 'append'))
             elif meth in ('append', 'extend') and recv[0] in ('lv', 'name', 'list'):
                 acc.appended.append((recv, args[0] if args else None, node, meth))
+            elif meth == 'update' and recv == ('name', labels_name) and len(args) == 1 and not kwargs and args[0][0] == 'dict' \
+                    and args[0][1] and all(kk != ('opaque', '**') for kk, _ in args[0][1]):
+                # labels.update({name: offset}) with the entries written out: the same as labels[name] = offset for each of them
+                for kk, vv in args[0][1]:
+                    acc.label_sets.append((kk, vv, node, i))
             elif meth == 'update' and recv == ('name', labels_name):
                 acc.label_updates.append({'arg': args[0] if args else None, 'node': node, 'index': i,
-                                          'parsed': parse_label_update(args[0]) if args else None})
+                                          'parsed': parse_label_update(args[0]) if args and not kwargs else None})
+            elif recv == ('name', labels_name) and meth in ('pop', 'popitem', 'clear', 'setdefault', '__setitem__', '__delitem__'):
+                acc.label_other.append(node)
             elif meth in ('insert', 'sort', 'reverse', 'pop', 'remove', 'clear') and recv[0] in ('lv', 'name'):
                 acc.other_list_ops.append((recv, meth, node))
+        elif k == 'aug' and ev[1] == result_list:
+            # new_items += [a, b] is new_items.extend([a, b])
+            if ev[2] == '+':
+                acc.appended.append((('lv', result_list), ev[3], ev[4], 'extend'))
+            else:
+                acc.other_list_ops.append((('lv', result_list), 'aug ' + ev[2], ev[4]))
         elif k == 'aug':
             if ev[2] == '+' and isinstance(ev[3], tuple) and ev[3] and ev[3][0] in ('list', 'tuple') and ev[1] == result_list \
                     and not any(x[0] == 'star' for x in ev[3][1]):
@@ -710,6 +829,10 @@ def account(path, result_list, labels_name='labels'):
         elif k == 'augstore':
             if isinstance(ev[1], tuple) and ev[1] and ev[1][0] == 'sub' and ev[1][1] == ('name', labels_name):
                 acc.label_writes.append(ev[4])
+                acc.label_other.append(ev[4])
+        elif k == 'delete':
+            if any(t[0] == 'sub' and t[1] == ('name', labels_name) for t in ev[1] if isinstance(t, tuple) and t):
+                acc.label_other.append(ev[2])
         elif k == 'value':
             v = ev[1]
             if v[0] == 'mcall' and v[2] == 'eval':
@@ -733,11 +856,61 @@ def pass_pipeline(facts):
     return _pipeline_cache[key][1]
 
 
+OBSERVER_CALLS = {'len', 'enumerate', 'iter', 'list', 'tuple', 'sorted', 'reversed', 'zip', 'str', 'repr', 'format', 'print', 'isinstance', 'type', 'sum', 'min', 'max',
+                  'any', 'all', 'bool', 'int', 'id', 'hash', 'getattr', 'hasattr'}
+OBSERVER_MODULES = ('log', 'logging', 'logger', 'os.path', 'sys.stderr', 'sys.stdout')
+
+
+def is_observer(facts, fname, seen=()):
+    """Does the module-level function only look at the objects it is given?  No store through an attribute or a subscript, no
+    mutating method on a parameter or on something reached from one, no global / nonlocal, and every call is a builtin that
+    does not change its arguments, a logging call, a string method, or another observer.  Decided syntactically (True only
+    when every statement is recognised)."""
+    fn = facts.funcs.get(fname)
+    if fn is None or fname in seen or fn.decorator_list:
+        return False
+    mutators = {'append', 'extend', 'insert', 'pop', 'remove', 'clear', 'sort', 'reverse', 'update', 'setdefault', 'popitem', 'add', 'discard',
+                '__setitem__', '__delitem__', '__setattr__', 'write', 'writelines'}
+    for n in ast.walk(fn):
+        if isinstance(n, (ast.Global, ast.Nonlocal, ast.Delete, ast.Yield, ast.YieldFrom, ast.Await, ast.Lambda, ast.ClassDef)):
+            return False
+        if isinstance(n, ast.FunctionDef) and n is not fn:
+            return False
+        if isinstance(n, (ast.Attribute, ast.Subscript)) and isinstance(n.ctx, (ast.Store, ast.Del)):
+            return False
+        if isinstance(n, ast.Call):
+            d = dotted(n.func)
+            if isinstance(n.func, ast.Name):
+                if n.func.id in OBSERVER_CALLS:
+                    continue
+                if n.func.id in facts.funcs and is_observer(facts, n.func.id, tuple(seen) + (fname,)):
+                    continue
+                return False
+            if isinstance(n.func, ast.Attribute):
+                if n.func.attr in mutators:
+                    return False
+                if d and any(d == m or d.startswith(m + '.') for m in OBSERVER_MODULES):
+                    continue
+                if isinstance(n.func.value, ast.Constant) and isinstance(n.func.value.value, str):
+                    continue          # 'text'.format(...) / .join(...)
+                if n.func.attr in ('format', 'join', 'items', 'keys', 'values', 'get', 'lower', 'upper', 'strip', 'startswith', 'endswith', 'size', 'hex', 'count', 'index'):
+                    continue
+                return False
+            return False
+    return True
+
+
 def item_passes(facts, calls):
     """[(pass name, PassCall, the item-list argument)] for the recorded calls of one evaluated path that receive the running item
     list.  A pass reached through thin module-level wrappers (`def resolve_strings(items): return convert_items(..., items, ...)`)
     is named after the outermost wrapper."""
     out = []
+    # one invocation of a helper that makes several item passes is a phase of the pipeline, not a wrapper of one pass
+    per_site = {}
+    for c in calls:
+        if not c.mapped and c.via and any(isinstance(a, tuple) and a and a[0] == 'items' for a in c.args):
+            site = (c.via[0], c.via_sites[0] if getattr(c, 'via_sites', ()) else None)
+            per_site[site] = per_site.get(site, 0) + 1
     for c in calls:
         if c.mapped:
             continue
@@ -745,15 +918,43 @@ def item_passes(facts, calls):
         if not its:
             continue
         name = c.via[0] if c.via else c.name
+        if c.via and per_site.get((c.via[0], c.via_sites[0] if getattr(c, 'via_sites', ()) else None), 0) > 1:
+            name = c.name
         if name not in facts.funcs:
             continue
+        if getattr(c, 'discarded', False) and is_observer(facts, c.name):
+            continue        # a helper that only looks at the items (logging) and whose result is dropped is no pass
         out.append((name, c, its[0]))
     return out
 
 
+def table_param(facts, fname, which):
+    """Name of the parameter through which function `fname` receives assemble's `which` table ('labels' / 'constants') on some
+    evaluated path of the pipeline; None when the function is called there without it.  A function the pipeline never calls
+    directly keeps the conventional name if it has such a parameter."""
+    from .passorder import origins
+    f = facts.funcs.get(fname)
+    if f is None:
+        return None
+    params = [a.arg for a in f.args.posonlyargs + f.args.args + f.args.kwonlyargs]
+    seen = False
+    for value, calls in pass_pipeline(facts).all_paths():
+        for c in calls:
+            if c.name != fname or c.mapped:
+                continue
+            seen = True
+            bound = list(zip(params, c.args)) + [(k, v) for k, v in (c.kwargs.items() if isinstance(c.kwargs, dict) else c.kwargs)]
+            for pname, v in bound:
+                if isinstance(v, tuple) and v and any(l == ('param', which) for l in origins(v)):
+                    return pname
+    if seen:
+        return None
+    return which if which in params else None
+
+
 def pipeline(facts):
     """Ordered item passes of `assemble`: [(function name, guard ('always' | 'compress' | 'not compress'), call node, [argument
-    texts], None)].  Derived by evaluating the body of assemble for compress = False / True (passorder), so it does not matter
+    texts], the recorded PassCall)].  Derived by evaluating the body of assemble for compress = False / True (passorder), so it does not matter
     whether the passes are spelled as a straight line of assignments, a list of passes applied in a loop, or helper functions.
     A pass is a recorded call of a module-level function that receives the running item list."""
     import difflib
@@ -784,7 +985,7 @@ def pipeline(facts):
     def row(entry, guard):
         (name, c, x), everywhere = entry
         # a pass that runs on some but not all evaluated paths with the same compress value depends on something else as well
-        return (name, guard if everywhere else guard + ' and <another condition>', c.node, [pshow(y) for y in c.args], None)
+        return (name, guard if everywhere else guard + ' and <another condition>', c.node, [pshow(y) for y in c.args], c)
     for tag, i1, i2, j1, j2 in sm.get_opcodes():
         if tag == 'equal':
             out.extend(row((e, ea and eb), 'always') for (e, eb), (_, ea) in zip(b[j1:j2], a[i1:i2]))
